@@ -260,7 +260,10 @@ def check_timeouts(chk, quick):
                                    law="a retried Task attempt fails with States.Timeout exactly TimeoutSeconds after that attempt was "
                                        "made, never before: a reply just inside the window completes it")
                     s.close()
-    # execution TimeoutSeconds: not interceptable
+    # ---- the execution's time limit (top-level TimeoutSeconds): directed cases, each judged twice — against the instant
+    # and outcome the property prescribes (`exp`), and event by event against the timed reference semantics
+    directed = []      # (case, machine, plans, exp-or-None, dist key, law)
+    # not interceptable
     for etmo in (2, 4):
         for body in ("wait", "task"):
             for handler in ("none", "catch-all", "retry-all"):
@@ -273,21 +276,12 @@ def check_timeouts(chk, quick):
                     if handler == "retry-all":
                         st["Retry"] = [{"ErrorEquals": ["States.ALL"], "MaxAttempts": 3}, {"ErrorEquals": ["States.Timeout"], "MaxAttempts": 3}]
                 m = {"TimeoutSeconds": etmo, "StartAt": "S", "States": {"S": st, "C": {"Type": "Pass", "Result": "caught", "End": True}}}
-                s, ea = run_task(m, (etmo + 5) * 1000)
-                fv = explore.final_view(s, ea)
-                tt = term_time(s, ea)
                 case = {"kind": "execution-timeout", "TimeoutSeconds": etmo, "body": body, "handler": handler, "machine": m}
-                chk.count(cj(case), True)
-                chk.dist("exec_timeout.%s.%s" % (body, handler))
-                exp = {"status": "FAILED", "error": "States.Timeout", "t": etmo * 1000}
-                got = {"status": fv.get("status"), "error": fv.get("error"), "t": tt}
-                if s.errors:
-                    chk.report("impl-violates-law", case, impl={"errors": s.errors[:1]}, law="no exception escapes a handler")
-                elif got != exp:
-                    chk.report("impl-violates-law", case, impl=got, model=exp,
-                               law="an execution running longer than the machine's TimeoutSeconds fails with States.Timeout that no Retry or Catch intercepts, at exactly that instant")
-                s.close()
-
+                directed.append((case, m, {"f": [("ok", None, (etmo + 5) * 1000)]},
+                                 {"status": "FAILED", "error": "States.Timeout", "t": etmo * 1000},
+                                 "exec_timeout.%s.%s" % (body, handler),
+                                 "an execution running longer than the machine's TimeoutSeconds fails with States.Timeout that no Retry or "
+                                 "Catch intercepts, at exactly that instant"))
     # the Task's own deadline and the execution's: whichever comes first decides, and when they coincide (the Task is the
     # start state with the machine's TimeoutSeconds, or entered-offset + Task timeout = machine timeout) it is the
     # execution's — not interceptable; a strictly earlier Task deadline is the Task's (retriable / catchable), after
@@ -314,13 +308,8 @@ def check_timeouts(chk, quick):
                     states["W"] = {"Type": "Wait", "Seconds": offset, "Next": "T"}
                     start = "W"
                 m = {"TimeoutSeconds": etmo, "StartAt": start, "States": states}
-                s, ea = run_task(m, (etmo + 9) * 1000)           # the worker answers long after every deadline
-                fv = explore.final_view(s, ea)
-                tt = term_time(s, ea)
                 case = {"kind": "task-vs-execution-timeout", "TimeoutSeconds": etmo, "task_TimeoutSeconds": ttmo, "offset_s": offset,
                         "shape": shape, "handler": handler, "machine": m}
-                chk.count(cj(case), True)
-                chk.dist("task_vs_exec_timeout.%s.%s" % (shape, handler))
                 task_first = offset + ttmo < etmo
                 if task_first and handler.startswith("catch"):
                     exp = {"status": "SUCCEEDED", "error": None, "t": (offset + ttmo) * 1000}
@@ -330,22 +319,182 @@ def check_timeouts(chk, quick):
                     # too — C07's model copies that, the property is silent on it)
                     first = (offset + ttmo) if (task_first and not handler.startswith("retry")) else etmo
                     exp = {"status": "FAILED", "error": "States.Timeout", "t": first * 1000}
-                got = {"status": fv.get("status"), "error": fv.get("error"), "t": tt}
-                if s.errors:
-                    chk.report("impl-violates-law", case, impl={"errors": s.errors[:1]}, law="no exception escapes a handler")
-                elif got != exp:
-                    chk.report("impl-violates-law", case, impl=got, model=exp,
-                               law="Task deadline vs execution deadline: the earlier one decides; the execution's (also when they coincide) "
-                                   "fails the execution with States.Timeout that no Retry or Catch intercepts, at exactly that instant")
-                s.close()
+                directed.append((case, m, {"f": [("ok", None, (etmo + 9) * 1000)]},      # the worker answers long after every deadline
+                                 exp, "task_vs_exec_timeout.%s.%s" % (shape, handler),
+                                 "Task deadline vs execution deadline: the earlier one decides; the execution's (also when they coincide) "
+                                 "fails the execution with States.Timeout that no Retry or Catch intercepts, at exactly that instant"))
+    # inside fan-outs: every branch still at work is cut at the limit, whatever Retry / Catch the branch's state, the
+    # Parallel / Map state and the states around them have; branches that are done stay done; nothing is filed for the cut
+    # states, nor `…StateFailed` / `MapIterationFailed`
+    handlers = {"none": {}, "catch-all": {"Catch": [{"ErrorEquals": ["States.ALL"], "Next": "C"}]},
+                "retry-all": {"Retry": [{"ErrorEquals": ["States.ALL"], "IntervalSeconds": 1, "MaxAttempts": 2}]}}
+    for hn, h in handlers.items():
+        inner = dict(T("f"), **({"Catch": [{"ErrorEquals": ["States.ALL"], "Next": "Q"}]} if hn == "catch-all" else {}))
+        inner.pop("End", None)
+        inner["Next"] = "Q"
+        branches = [{"StartAt": "X", "States": {"X": inner, "Q": {"Type": "Pass", "End": True}}},
+                    {"StartAt": "W", "States": {"W": {"Type": "Wait", "Seconds": 1, "Next": "W2"}, "W2": {"Type": "Wait", "Seconds": 7, "End": True}}},
+                    {"StartAt": "D", "States": {"D": {"Type": "Pass", "End": True}}}]
+        mp = {"TimeoutSeconds": 3, "StartAt": "P", "States": {"P": dict({"Type": "Parallel", "Next": "C", "Branches": branches}, **h),
+                                                                 "C": {"Type": "Pass", "Result": "caught", "End": True}}}
+        directed.append(({"kind": "execution-timeout-in-fanout", "shape": "parallel", "handler": hn, "machine": mp}, mp,
+                         {"f": [("ok", None, 20000)]}, {"status": "FAILED", "error": "States.Timeout", "t": 3000},
+                         "exec_timeout.parallel.%s" % hn,
+                         "the execution's time limit inside a Parallel state: FAILED with States.Timeout at exactly the limit, whatever the handlers"))
+        mm = {"TimeoutSeconds": 3, "StartAt": "M", "States": {"M": dict({"Type": "Map", "ItemsPath": "$.xs", "MaxConcurrency": 2, "Next": "C",
+              "Iterator": {"StartAt": "V", "States": {"V": {"Type": "Wait", "SecondsPath": "$", "End": True}}}}, **h),
+              "C": {"Type": "Pass", "Result": "caught", "End": True}}}
+        directed.append(({"kind": "execution-timeout-in-fanout", "shape": "map-batches", "handler": hn, "machine": mm, "input": {"xs": [1, 1, 2, 1]}}, mm,
+                         {}, {"status": "FAILED", "error": "States.Timeout", "t": 3000}, "exec_timeout.map_batches.%s" % hn,
+                         "the execution's time limit in the second batch of a Map state: FAILED with States.Timeout at exactly the limit"))
+    # C08-F1's family: a Retrier's interval that runs past the limit (Task / Parallel / Map); the property wants the
+    # execution to end at the limit
+    for kind_, st in (("task", dict(T("f"), Retry=[{"ErrorEquals": ["States.ALL"], "IntervalSeconds": 2, "MaxAttempts": 3}])),
+                      ("parallel", {"Type": "Parallel", "End": True, "Retry": [{"ErrorEquals": ["States.ALL"], "IntervalSeconds": 5, "MaxAttempts": 1}],
+                                    "Branches": [{"StartAt": "X", "States": {"X": T("f")}}, {"StartAt": "Y", "States": {"Y": {"Type": "Pass", "End": True}}}]}),
+                      ("map", {"Type": "Map", "End": True, "ItemsPath": "$.xs", "Retry": [{"ErrorEquals": ["Boom"], "IntervalSeconds": 4, "MaxAttempts": 2}],
+                               "Iterator": {"StartAt": "V", "States": {"V": {"Type": "Wait", "SecondsPath": "$", "Next": "X"}, "X": T("f")}}})):
+        m = {"TimeoutSeconds": 3, "StartAt": "S", "States": {"S": st}}
+        directed.append(({"kind": "retry-interval-past-deadline", "state": kind_, "machine": m, "input": {"x": 1, "xs": [0, 1]}}, m,
+                         {"f": [("err", "Boom", "m", 10)]}, None, "exec_timeout.retry_interval.%s" % kind_,
+                         "an execution running longer than the machine's TimeoutSeconds fails with States.Timeout at exactly that instant"))
+    run_directed(chk, directed)
+
+
+def run_directed(chk, directed):
+    from props import c01
+    runs, lines = [], []
+    for case, m, plans, exp, key, law in directed:
+        data = case.get("input", {"x": 1})
+        r = enginerun.run_case(m, data, plans, max_steps=3000)
+        runs.append(r)
+        lines.append(c01.model_line(m, data, r.exec_arn, r.plans.oracle()))
+        r.sim.close()
+    for (case, m, plans, exp, key, law), r, a in zip(directed, runs, common.driver(lines, shards=4)):
+        data = case.get("input", {"x": 1})
+        case = dict(case, input=data, plans=plans)
+        chk.count(cj(case), True)
+        chk.dist(key)
+        tt = next((x["t"] for x in r.notifications if x["body"]["detail"].get("status") != "RUNNING"), None)
+        got = {"status": r.status, "error": r.error, "t": None if tt is None else round(tt, 3)}
+        parts = a.split("\t")
+        mo = json.loads(parts[1]) if parts[0] == "ok" else None
+        if r.errors:
+            chk.report("impl-violates-law", case, impl={"errors": r.errors[:1]}, law="no exception escapes a handler")
+            continue
+        if mo is None or mo.get("status") not in ("SUCCEEDED", "FAILED"):
+            chk.report("model-differs-from-impl", case, impl=got, model={"answer": a[:200]},
+                       law="the timed reference semantics covers the directed time-limit cases")
+            continue
+        # event by event against the reference semantics (with the switches of the open findings); under a time limit this
+        # includes the property's own law on the engine (nothing after the limit), classified by the finding's model switch
+        ok = compare_run(chk, case, m, data, r, mo, "directed", law="the timed reference semantics predicts the run: " + law)
+        if ok and exp is not None and got != exp:
+            chk.report("impl-violates-law", case, impl=got, model=exp, law=law)
+        elif ok and exp is not None:
+            chk.dist("directed.as_the_property_prescribes")
+
+
+def classify(f, case, impl, model):
+    """exact explanation by an open finding: C08-F1 — an event after the execution's deadline is this finding exactly
+    when the reference semantics *with the finding's switch on* reproduces the whole run (history, instants, requests,
+    notifications) and *without it* keeps within the limit"""
+    if f.get("classifier") == "retry-interval-past-execution-deadline":
+        return bool(impl and impl.get("reproduced_with_switch") and impl.get("within_limit_without_switch"))
+    return False
+
+
+def beyond_limit(machine, r):
+    """C08's law on the engine's own record of a run: under an execution time limit nothing happens after start + limit
+    — no history event, no request reaching a worker, not the terminal notification.  Returns what does."""
+    dl = enginerun.limit_ms(machine)
+    if dl is None:
+        return []
+    late = [[h.get("type"), enginerun.ms_of(h.get("timestamp", 0))] for h in (r.history or [])
+            if enginerun.ms_of(h.get("timestamp", 0)) > dl + 0.001]
+    late += [["request:" + q["queue"], q["t"]] for q in r.requests if q["t"] > dl + 0.001]
+    late += [["notification:" + x["body"]["detail"].get("status", "?"), x["t"]] for x in r.notifications if x["t"] > dl + 0.001]
+    return late
+
+
+def model_without_switches(machine, data, r):
+    from props import c01
+    a = common.driver([c01.model_line(machine, data, r.exec_arn, r.plans.oracle(), quirks=[])])[0].split("\t")
+    return json.loads(a[1]) if a[0] == "ok" else None
+
+
+def limit_dist(chk, machine, m, prefix):
+    """what the compared run did with its execution time limit"""
+    if enginerun.limit_ms(machine) is None:
+        return
+    chk.dist(prefix + ".with_time_limit")
+    if m.get("execTimeout"):
+        kinds = [e[0] for e in m.get("history", [])]
+        last = kinds[-2] if len(kinds) > 1 else ""
+        where = ("task-tie" if last == "LambdaFunctionTimedOut" else "task" if last == "LambdaFunctionScheduled"
+                 else "wait" if last == "WaitStateEntered" else "retry-interval-or-fanout")
+        chk.dist(prefix + ".time_limit_ran_out.%s" % where)
+        if framecmp_fan(machine, m):
+            chk.dist(prefix + ".time_limit_ran_out.inside_fanout")
+    else:
+        chk.dist(prefix + ".time_limit_not_reached")
+
+
+def framecmp_fan(machine, m):
+    import framecmp
+    return framecmp.fan_entered(machine, m)
+
+
+def compare_run(chk, case, machine, data, r, m, prefix, law):
+    """one canonical engine run `r` against the outcome `m` of the timed reference semantics: outcome, complete history
+    with instants, request instants, notifications (stopDate), and — under an execution time limit — the law that
+    nothing happens after the limit.  Returns True when everything agreed."""
+    from props import c01
+    why = enginerun.time_limit_incomparable(machine, m, r.requests)
+    if why:
+        chk.dist("%s.not_compared.%s" % (prefix, why))
+        return True
+    mode, hp, nev = enginerun.compare_history(machine, m, r.history, len(r.requests), timed=True,
+                                              request_instants=[q["t"] for q in r.requests], requests=r.requests)
+    nmode, np_ = enginerun.compare_notifications(m, [x["body"]["detail"] for x in r.notifications], data, timed=True, requests=r.requests)
+    chk.dist("%s.%s" % (prefix, mode))
+    chk.dist("%s.%s.events" % (prefix, mode), nev)
+    if cj(c01.impl_view(r)) != cj(c01.model_view(m)):
+        hp = [{"what": "outcome", "engine": c01.impl_view(r), "model": c01.model_view(m)}] + hp
+    if hp or np_:
+        chk.report("impl-differs-from-spec", case, impl={"differences": (hp + np_)[:4], "mode": mode}, model={"endTime": m.get("endTime")}, law=law)
+        return False
+    late = beyond_limit(machine, r)
+    if late:
+        # the property itself, on the engine: known exactly when the model with the finding's switch reproduced the run
+        # (it just did: no differences above, in a mode that compares every event) and without it stays within the limit
+        m0 = model_without_switches(machine, data, r)
+        dl = enginerun.limit_ms(machine)
+        within = m0 is not None and all(enginerun.model_ms(e[3]) <= dl for e in m0.get("history", [])) and enginerun.model_ms(m0.get("endTime", 0)) <= dl
+        chk.dist("%s.beyond_time_limit" % prefix)
+        # reproduced: every event was compared (sequence / multiset), or — an earlier fan-out attempt failed, so only the
+        # engine's exits are held against the model — at least everything the engine did after the limit is, event by event
+        # with its instant, what the model with the switch does after the limit
+        import collections
+        eng_late = collections.Counter(cj(e) for e in enginerun.history_events(r.history, timed=True) if e[3] > dl + 0.001)
+        mod_late = collections.Counter(cj(e) for e in enginerun.model_events(m, timed=True) if e[3] > dl + 0.001)
+        reproduced = mode in ("sequence", "multiset") or (mode == "fanfail" and not (eng_late - mod_late))
+        chk.report("impl-violates-law", case,
+                   impl={"after_the_limit": late[:4], "limit_ms": dl, "reproduced_with_switch": reproduced,
+                         "within_limit_without_switch": within},
+                   model={"endTime_without_switch": m0.get("endTime") if m0 else None, "endTime_with_switch": m.get("endTime")},
+                   law="no_event_after_deadline: under an execution time limit no history event, no task request and not the "
+                       "terminal notification happen after start + TimeoutSeconds", classify=classify)
+        return False
+    return True
 
 
 def check_generated(chk, quick):
     """generated machines made to exercise the clock (machgen.timify: Task TimeoutSeconds with worker delays on both
     sides of the deadline or no answer at all, Wait states of all four forms in assorted offset notations, non-default
-    reply delays, States.Timeout in Retry / Catch lists) run on the engine under the canonical schedule; every instant
-    — each history event's timestamp, each request's arrival at its worker, the terminal notification's stopDate —
-    is compared exactly with what `Asl.run` predicts"""
+    reply delays, States.Timeout in Retry / Catch lists, a top-level TimeoutSeconds in 40 % of them) run on the engine
+    under the canonical schedule; every instant — each history event's timestamp, each request's arrival at its worker,
+    the terminal notification's stopDate — is compared exactly with what `Asl.run` predicts"""
     from props import c01
     import machgen
     n = 500 if quick else 12000
@@ -372,22 +521,17 @@ def check_generated(chk, quick):
             continue
         chk.count(cj(case), enginerun.model_ms(m.get("endTime", 0)) > 0)
         c01.timed_dist(chk, dict(c, timed=True), m, prefix="generated")
+        limit_dist(chk, c["machine"], m, "generated")
         if r.status not in ("SUCCEEDED", "FAILED"):
             chk.report("impl-differs-from-spec", case, impl={"status": r.status, "quiescent": r.quiescent}, model=c01.model_view(m),
                        law="the execution ends (at the instant the reference semantics predicts)")
             continue
-        mode, hp, nev = enginerun.compare_history(c["machine"], m, r.history, len(r.requests), timed=True,
-                                                  request_instants=[q["t"] for q in r.requests], requests=r.requests)
-        nmode, np_ = enginerun.compare_notifications(m, [x["body"]["detail"] for x in r.notifications], c["input"], timed=True, requests=r.requests)
-        chk.dist("generated.%s" % mode)
-        chk.dist("generated.%s.events" % mode, nev)
-        if cj(c01.impl_view(r)) != cj(c01.model_view(m)):
-            hp = [{"what": "outcome", "engine": c01.impl_view(r), "model": c01.model_view(m)}] + hp
-        if hp or np_:
-            chk.report("impl-differs-from-spec", case, impl={"differences": (hp + np_)[:4], "mode": mode}, model={"endTime": m.get("endTime")},
-                       law="every history event, request and the terminal notification happen at the instant the timed reference "
-                           "semantics predicts: waits are over at max(target, entry), a Task times out TimeoutSeconds after its entry, "
-                           "a retry starts IntervalSeconds x BackoffRate^k after the failure, a join is at the latest branch's end")
+        compare_run(chk, case, c["machine"], c["input"], r, m, "generated",
+                    law="every history event, request and the terminal notification happen at the instant the timed reference "
+                        "semantics predicts: waits are over at max(target, entry), a Task times out TimeoutSeconds after its entry, "
+                        "a retry starts IntervalSeconds x BackoffRate^k after the failure, a join is at the latest branch's end, "
+                        "the execution's time limit cuts a pending Task / Wait at start + TimeoutSeconds (States.Timeout, not "
+                        "interceptable; a tie with the Task's own limit is the execution's)")
 
 
 def run(chk):
@@ -401,28 +545,39 @@ def run(chk):
                        "redelivered after a crash mid-wait; under three process time zones (UTC, Asia/Kolkata, America/St_Johns) so the "
                        "engine's own EnteredTime/StartTime strings carry half-hour offsets; exit instant compared exactly with "
                        "max(target, delivery) where the target instant of a timestamp comes from the Lean RFC 3339 model; Task "
-                       "TimeoutSeconds 1/2/5 x reply 1 ms before / after the deadline x none/Catch/Retry; execution TimeoutSeconds x "
-                       "Wait/Task x none/Catch-all/Retry-all; generated timed machines (machgen.timify) under the canonical schedule: "
-                       "every history timestamp, request instant and the stopDate compared exactly with the timed Asl.run "
-                       "(generated.* in the distribution); distinct = distinct case description")
+                       "TimeoutSeconds 1/2/5 x reply 1 ms before / after the deadline x none/Catch/Retry; the execution's time limit "
+                       "(top-level TimeoutSeconds), directed: x Wait/Task x none/Catch-all/Retry-all, Task deadline before / at / after "
+                       "the execution's x 5 handlers, inside a Parallel state and in the second batch of a Map state x 3 handlers, a "
+                       "Retrier's interval running past the limit (Task / Parallel / Map: the witnesses of C08-F1) — each judged "
+                       "against the instant and outcome the property prescribes and, event by event with instants, against the timed "
+                       "Asl.run (directed.*); generated timed machines (machgen.timify; a third with an execution time limit placed "
+                       "inside the run's duration: generated.time_limit_*) under the canonical schedule: every history timestamp, "
+                       "request instant and the stopDate compared exactly with the timed Asl.run (generated.* in the distribution), "
+                       "and on every compared run of a machine with a limit the law 'nothing happens after start + TimeoutSeconds' "
+                       "evaluated on the engine's own record (failures classified by the model switch of C08-F1); "
+                       "distinct = distinct case description")
 
 
 def replay(chk, path):
     with open(path) as f:
         rp = json.load(f)
     c = rp["case"]
-    if c["kind"] == "generated-timed":
+    if "plans" in c and c.get("kind") != "task-timeout":
+        # a generated or directed case of the timed reference semantics: the engine's history next to the model's (with the
+        # switches of the open findings, and without any)
         from props import c01
         r = enginerun.run_case(c["machine"], c["input"], {k: [tuple(o) for o in v] for k, v in c["plans"].items()}, max_steps=3000)
-        print("impl :", cj(c01.impl_view(r)))
+        print("impl :", cj(c01.impl_view(r)), "limit_ms:", enginerun.limit_ms(c["machine"]), "beyond the limit:", beyond_limit(c["machine"], r)[:4])
         for e in enginerun.history_events(r.history, timed=True):
             print("   E", json.dumps(e)[:160])
-        a = common.driver([c01.model_line(c["machine"], c["input"], r.exec_arn, r.plans.oracle())])[0].split("\t")
-        if a[0] == "ok":
-            for e in enginerun.model_events(json.loads(a[1]), timed=True):
-                print("   M", json.dumps(e)[:160])
+        for tag, q in (("M ", None), ("M0", [])):
+            a = common.driver([c01.model_line(c["machine"], c["input"], r.exec_arn, r.plans.oracle(), quirks=q)])[0].split("\t")
+            if a[0] == "ok":
+                print("model", "with the switches of the open findings:" if q is None else "without switches:")
+                for e in enginerun.model_events(json.loads(a[1]), timed=True):
+                    print("  ", tag, json.dumps(e)[:160])
         return 0
-    if c["kind"] in ("task-timeout", "execution-timeout"):
+    if c["kind"] in ("task-timeout", "retried-task-timeout"):
         s, ea = run_task(c["machine"], c.get("reply_delay_ms", 99999))
         print("final:", cj(explore.final_view(s, ea)), "terminal at", term_time(s, ea))
     else:
